@@ -105,7 +105,8 @@ def parse_race_logs(outdir):
 
 
 def strip_fn(fnname):
-    return re.sub(r"\(.*$", "", fnname)
+    # "pkg.(*T).M.func1()" -> "pkg.(*T).M.func1": drop only the trailing call parentheses
+    return re.sub(r"\([^()]*\)$", "", fnname.strip())
 
 
 def access_stacks(rep):
